@@ -42,6 +42,11 @@ func roImage(variant string) *roObject {
 		file = attachSignatures(ti, mk("k1", "A"))
 	case "twosigs":
 		file = attachSignatures(ti, mk("k2", "B"), mk("k1", "A"))
+	case "badsigs":
+		// three entries none of which verifies, each for another reason: not a signature at all, a signature over another image's
+		// digest, a signature by somebody else - what Verify reports is the same every time it is asked
+		stale := buildSymBlob("spc", "m2", []symSigner{{Sid: "A", SigKey: "k1", SigOver: "attrs_as_encoded", Attrs: "present", CT: "spc", MD: "m2", Order: "canonical"}}, "signer", true, map[string][]byte{"m2": imgs["I2"].digest})
+		file = attachSignatures(ti, prbytes("not-a-signature", 200), stale, mk("k2", "B"))
 	}
 	p, err := authenticode.Parse(bytes.NewReader(file))
 	if err != nil {
@@ -55,7 +60,8 @@ func roImage(variant string) *roObject {
 				cert = B
 			}
 			ok, err := p.Verify(cert)
-			return fmt.Sprint(ok, err != nil)
+			// the baseline comes from the same build, so the error text itself can be compared (a reworded message is not an alarm)
+			return fmt.Sprint(ok, err)
 		}
 	}
 	return &roObject{ops: map[string]func() string{
